@@ -8,6 +8,7 @@ import (
 	"math/rand"
 	"strings"
 	"sync"
+	"sync/atomic"
 	"time"
 
 	"github.com/ethereum/go-ethereum/accounts/abi/bind"
@@ -119,6 +120,8 @@ func (c *chainWorld) payment(operator bool) (store.BalanceStore, func(store.Acco
 // contractKeepalive: a client linked to a wallet whose deposit is timelocked (the pool restarted
 // since: nothing cached) sends billing keep-alives. The pool cannot read its balance; whatever it
 // answers, the hosts' credits and the client's debit must still add up to zero.
+var keepaliveScenarios int64
+
 func contractKeepalive(drv int, rng *rand.Rand) (map[string]interface{}, []string) {
 	bg := context.Background()
 	c := newChainWorld(drv)
@@ -135,7 +138,7 @@ func contractKeepalive(drv int, rng *rand.Rand) (map[string]interface{}, []strin
 	if err := c.st.AddAccountNode(store.Account(wallet), store.NodeID(cid)); err != nil {
 		fatal("%v", err)
 	}
-	locked := rng.Intn(3) != 0
+	locked := atomic.AddInt64(&keepaliveScenarios, 1)%2 == 0 // alternately: a timelocked deposit, a spendable one
 	if locked {
 		if _, err := c.contract.ForceSettle(c.tx(c.wAuth, nil)); err != nil {
 			fatal("forceSettle: %v", err)
@@ -147,11 +150,13 @@ func contractKeepalive(drv int, rng *rand.Rand) (map[string]interface{}, []strin
 	var clock time.Time
 	mgr.VerifSetClock(func() time.Time { return clock })
 	p := pool.New(c.st.Store, mgr)
+	var lastReply *pool.UpdateResponse
 	update := func() error {
 		req := pool.UpdateRequest{PeerInfo: peerInfos(hosts), BlockNumber: 1}
 		n := c.next()
 		sig, _ := request.Sign(keyFor("c1"), "vipnode_update", cid, n, req)
-		_, err := p.Update(bg, sig, cid, n, req)
+		resp, err := p.Update(bg, sig, cid, n, req)
+		lastReply = resp
 		return err
 	}
 	total := func() *big.Int {
@@ -189,6 +194,13 @@ func contractKeepalive(drv int, rng *rand.Rand) (map[string]interface{}, []strin
 		log = append(log, fmt.Sprintf("keep-alive billing %d per host (deposit timelocked: %v): %v; hosts +%s, client -%s", charge, locked, err, earned, paid))
 		if t0.Cmp(t1) != 0 {
 			mon = append(mon, fmt.Sprintf("c01-contract-total: a keep-alive of a client whose wallet deposit is timelocked=%v (balance store: the contract) moved the ledger total from %s to %s (hosts +%s, client -%s; the keep-alive answered: %v)", locked, t0, t1, earned, paid, err))
+		}
+		if err == nil && lastReply != nil && lastReply.Balance != nil {
+			// the balance in the reply is the ledger's credit and the contract's deposit
+			on, _ := c.contract.Accounts(nil, common.HexToAddress(wallet))
+			if lastReply.Balance.Credit.Cmp(c1) != 0 || (on.Balance != nil && lastReply.Balance.Deposit.Cmp(on.Balance) != 0) {
+				mon = append(mon, fmt.Sprintf("c02-contract-reply: the keep-alive's reply reports credit %s and deposit %s; the ledger holds credit %s and the contract a deposit of %s", &lastReply.Balance.Credit, &lastReply.Balance.Deposit, c1, on.Balance))
+			}
 		}
 		if earned.Cmp(paid) != 0 {
 			mon = append(mon, fmt.Sprintf("c02-contract-amount: the hosts were credited %s, the client debited %s (deposit timelocked=%v; the keep-alive answered: %v)", earned, paid, locked, err))
@@ -583,7 +595,17 @@ func contractManyAccounts(drv int, rng *rand.Rand) (map[string]interface{}, []st
 			mon = append(mon, fmt.Sprintf("c07-contract-paid: after %d lookups of other accounts two withdrawals in a row (results %v, %v) put %s into the wallet; deposit %d + credit %d = %s was owed, once", others, first, second, received, dep, cred, want))
 		}
 	}
-	return map[string]interface{}{"driver": driverNames[drv], "other_accounts": others, "lookups_took_ms": took.Milliseconds(), "first": fmt.Sprint(first), "second": fmt.Sprint(second), "received": received.String()}, mon
+	desc := map[string]interface{}{"driver": driverNames[drv], "other_accounts": others, "lookups_took_ms": took.Milliseconds(), "first": fmt.Sprint(first), "second": fmt.Sprint(second), "received": received.String()}
+	// the same history on the deposit-cache model (the pinned cache has no bound: other accounts
+	// crowding it change nothing)
+	if first == nil && second == nil {
+		on, _ := c.contract.Accounts(nil, wAddr)
+		led, _ := c.st.GetAccountBalance(acct)
+		ops := []string{"DDeposit " + cZ(dep), "DEarn " + cZ(cred), "DRead", "DCrowd true", "DWithdraw", "DRead", "DWithdraw", "DMine", "DMine"}
+		desc["_coq"] = fmt.Sprintf("C7Contract {| cc_cfg := {| dc_fee := 0; dc_min := None; dc_refresh_on_settle := true; dc_when_full := FPStore |}; cc_ops := %s; cc_received := %s; cc_left_chain := %s; cc_left_credit := %s |}",
+			cList(ops), cBig(received), cBig(on.Balance), cBig(&led.Credit))
+	}
+	return desc, mon
 }
 
 // contractCase runs one of the scenarios and keeps the monitors of the property being checked.
@@ -615,5 +637,14 @@ func contractCase(ctx *Ctx, i int, rng *rand.Rand, scenario string, prefixes ...
 			}
 		}
 	}
-	ctx.Emit(Case{I: i, Kind: "contract-" + scenario + "-" + driverNames[drv], Desc: desc, Monitor: mine})
+	coq := ""
+	if c, ok := desc["_coq"].(string); ok {
+		delete(desc, "_coq")
+		for _, p := range prefixes {
+			if p == "c07-" {
+				coq = c
+			}
+		}
+	}
+	ctx.Emit(Case{I: i, Kind: "contract-" + scenario + "-" + driverNames[drv], Coq: coq, Desc: desc, Monitor: mine})
 }
